@@ -61,6 +61,7 @@ type Engine struct {
 	timeout      int
 	maxVC        int
 	keepSMT      bool
+	reachNotes   bool // per-return reachability notes (verbose / thorough)
 	debug        bool
 	oblFilter    string
 
@@ -373,7 +374,13 @@ func (eng *Engine) checkClause(p *packages.Package, cl *Clause, pos token.Pos, u
 				return fmt.Sprintf("gh_result[%s](%d)", typeTexts[idx], idx)
 			})
 			last := res.Len() - 1
-			if last >= 0 && types.Identical(res.At(last).Type(), types.Universe.Lookup("error").Type()) {
+			paramNamedErr := false
+			for i := 0; i < sig.Params().Len(); i++ {
+				if sig.Params().At(i).Name() == "err" {
+					paramNamedErr = true
+				}
+			}
+			if last >= 0 && !paramNamedErr && types.Identical(res.At(last).Type(), types.Universe.Lookup("error").Type()) {
 				text = replaceIdent(text, "err", fmt.Sprintf("gh_result[error](%d)", last))
 			}
 		}
@@ -497,7 +504,8 @@ func (eng *Engine) isSentinel(v *types.Var) bool {
 						return false
 					}
 					s := types.ExprString(call.Fun)
-					return s == "errors.New" || s == "fmt.Errorf"
+					// each constructor call yields a distinct non-nil object (errors, key formats)
+					return s == "errors.New" || s == "fmt.Errorf" || strings.HasSuffix(s, ".New")
 				}
 			}
 		}
